@@ -1,44 +1,260 @@
 //! C05 — foreign-field and big-integer gadgets are complete and sound.
+//!
+//! Catalogue (E5) of small register programs over the emulated-field chips ZkStdLib exposes
+//! (secp256k1 scalar and base field, BLS12-381 base field), over Curve25519 field chips built from
+//! scratch, and over `BigUintGadget`; reference = `num-bigint` arithmetic. Per (program, operands):
+//! completeness, output edits, out-of-domain operands, ARS towards edited outputs (shared driver),
+//! plus semantic attacks of a malicious prover specialised for limb arithmetic (c05_ops/repair.rs):
+//! native-modulus wrap-around of a product / sum / quotient with donor decompositions, quotient
+//! and remainder shifts of BigUint division, underflowing subtraction, and ±1 seed moves on
+//! sampled cells with free outputs.
 #![allow(clippy::type_complexity)]
 
-#[path = "c05_ops/ffield.rs"]
-mod ffield;
+#[path = "c05_ops/attack.rs"]
+mod attack;
 #[path = "c05_ops/big.rs"]
 mod big;
+#[path = "c05_ops/cat_big.rs"]
+mod cat_big;
+#[path = "c05_ops/cat_field.rs"]
+mod cat_field;
+#[path = "c05_ops/ffield.rs"]
+mod ffield;
+#[path = "c05_ops/repair.rs"]
+mod repair;
+#[path = "c05_ops/scratch.rs"]
+mod scratch;
 
 use std::collections::BTreeMap;
 
+use attack::*;
 use big::*;
+use cat_big::*;
+use cat_field::*;
 use ffield::*;
 use midnight_circuits::field::foreign::params::FieldEmulationParams;
 use midnight_curves::Fq as F;
-use mzv::{common::*, engines::catalogue::*};
-use num_bigint::{BigUint, RandBigInt};
-use num_traits::{One, Zero};
+use mzv::{
+    common::*,
+    engines::{ars::ArsBudget, catalogue::*},
+};
 use rayon::prelude::*;
+use serde_json::json;
 
-fn b(n: u64) -> BigUint {
-    BigUint::from(n)
+impl<K: Emu> Sem for FProg<K>
+where
+    MEP: FieldEmulationParams<F, K>,
+{
+    fn cmp(&self, input: &FIn, forged: &[F]) -> Option<OutCmp> {
+        let (_, outs) = self.eval(input)?;
+        Some(Self::compare_outputs(&outs, forged))
+    }
+}
+
+impl Sem for BProg {
+    fn cmp(&self, input: &BIn, forged: &[F]) -> Option<OutCmp> {
+        let (_, outs) = self.eval(input)?;
+        Some(self.compare_outputs(&outs, forged))
+    }
+}
+
+#[derive(Clone)]
+pub struct Budgets {
+    pub thorough: bool,
+    pub n_boundary: usize,
+    pub n_random: usize,
+    pub seed_cells: usize,
+    pub repair_nodes: u64,
+    pub opts: OpOptions,
+    pub opts_nonunique: OpOptions,
+}
+
+type Job = Box<dyn Fn(&Ctx, &Budgets, &mut Report) -> (String, OpStats, AttackStats) + Send + Sync>;
+
+fn field_jobs<K: Emu>(fidx: usize, ctx: &Ctx, thorough: bool, only: &Option<String>) -> Vec<Job>
+where
+    MEP: FieldEmulationParams<F, K>,
+{
+    let mut rng = ctx.rng(&format!("c05-chains-{}", K::TAG));
+    let entries = field_catalogue::<K>(fidx, &mut rng, if thorough { 6 } else { 1 });
+    let mut jobs: Vec<Job> = vec![];
+    for (idx, e) in entries.into_iter().enumerate() {
+        if !thorough && !e.quick {
+            continue;
+        }
+        if let Some(o) = only {
+            if !e.prog.name.contains(o.as_str()) {
+                continue;
+            }
+        }
+        jobs.push(Box::new(move |ctx: &Ctx, bud: &Budgets, rep: &mut Report| {
+            let name = e.prog.name.clone();
+            let mut rng = ctx.rng(&format!("c05-inputs-{name}"));
+            let inputs = gen_inputs(&e, idx, bud.n_boundary, bud.n_random, &mut rng);
+            let opts = if e.prog.nonunique { &bud.opts_nonunique } else { &bud.opts };
+            let st = check_op(&e.prog, &inputs, opts, ctx.seed, rep);
+            let mut ast = AttackStats::default();
+            if (e.wrap.is_some() || e.seed_moves) && !e.prog.nonunique {
+                if let Some(actx) = AttackCtx::new(&e.prog, opts.max_bit_len, bud.repair_nodes, 400) {
+                    let n_attacked = if bud.thorough { inputs.len().min(6) } else { 2 };
+                    for input in inputs.iter().filter(|i| e.prog.eval(i).is_some()).take(n_attacked) {
+                        let specs = wrap_specs(&e, input);
+                        actx.run_specs(input, &specs, &mut ast, rep);
+                    }
+                    if e.seed_moves {
+                        if let Some(input) = inputs.iter().rev().find(|i| e.prog.eval(i).is_some()) {
+                            actx.run_seed_moves(input, bud.seed_cells, ctx.seed, &mut ast, rep);
+                        }
+                    }
+                }
+            }
+            rep.count_n(&format!("class.{}.entries", K::TAG), 1);
+            rep.count_n(&format!("class.{}.inputs", K::TAG), inputs.len() as u64);
+            (name, st, ast)
+        }));
+    }
+    jobs
+}
+
+fn big_jobs(thorough: bool, only: &Option<String>) -> Vec<Job> {
+    let mut jobs: Vec<Job> = vec![];
+    for (idx, e) in big_catalogue(thorough).into_iter().enumerate() {
+        if !thorough && !e.quick {
+            continue;
+        }
+        if let Some(o) = only {
+            if !e.prog.name.contains(o.as_str()) {
+                continue;
+            }
+        }
+        jobs.push(Box::new(move |ctx: &Ctx, bud: &Budgets, rep: &mut Report| {
+            let name = e.prog.name.clone();
+            let mut rng = ctx.rng(&format!("c05-inputs-{name}"));
+            let wide = e.widths.iter().any(|w| *w >= 1024);
+            let (nb, nr) = if wide { (bud.n_boundary.min(4), bud.n_random.min(3)) } else { (bud.n_boundary, bud.n_random) };
+            let inputs = cat_big::gen_inputs(&e, idx, nb, nr, &mut rng);
+            let st = check_op(&e.prog, &inputs, &bud.opts, ctx.seed, rep);
+            let mut ast = AttackStats::default();
+            if e.attack.is_some() || e.seed_moves {
+                if let Some(actx) = AttackCtx::new(&e.prog, bud.opts.max_bit_len, bud.repair_nodes, 600) {
+                    for input in inputs.iter() {
+                        let specs = big_attack_specs(&e, input);
+                        if !specs.is_empty() {
+                            actx.run_specs(input, &specs, &mut ast, rep);
+                        }
+                    }
+                    if e.seed_moves {
+                        if let Some(input) = inputs.iter().rev().find(|i| e.prog.eval(i).is_some()) {
+                            actx.run_seed_moves(input, bud.seed_cells, ctx.seed, &mut ast, rep);
+                        }
+                    }
+                }
+            }
+            rep.count_n("class.biguint.entries", 1);
+            rep.count_n("class.biguint.inputs", inputs.len() as u64);
+            (name, st, ast)
+        }));
+    }
+    jobs
 }
 
 fn main() {
-    let ctx = Ctx::from_args("C05");
-    let mut rep = Report::new(&ctx, "case = (program over an emulated field or BigUintGadget, operands)");
+    let mut ctx = Ctx::from_args("C05");
+    let mut only = ctx.extra.get("only").cloned();
+    if let Some(path) = ctx.replay.clone() {
+        // a replay re-executes the whole entry named in the witness at the recorded seed and tier
+        if let Some(j) = load_replay(&path) {
+            if let Some(op) = j["witness"]["op"].as_str() {
+                only = Some(op.to_string());
+            }
+            if let Some(s) = j["seed"].as_u64() {
+                ctx.seed = s;
+            }
+            if j["tier"].as_str() == Some("thorough") {
+                ctx.tier = Tier::Thorough;
+            }
+        }
+    }
+    let mut rep = Report::new(
+        &ctx,
+        "case = (program over an emulated field or over BigUintGadget, operands). The honest run must be accepted (reference evaluator and MockProver) with \
+         instance = inputs followed by the reference outputs in the documented limb encoding; every edited output position must be rejected; operands outside \
+         the documented domain (division by zero, failed assertion, underflow, value wider than declared) must be unsatisfiable; ARS and the donor-guided repair \
+         search look for an adversarial assignment towards edited / wrapped / shifted outputs and from +-1 seed moves. Non-trivial = distinct (program, operands) \
+         whose honest run was accepted, plus distinct out-of-domain operands.",
+    );
     let thorough = ctx.tier == Tier::Thorough;
     let mut opts = OpOptions::new("C05", thorough);
-    opts.max_positions = 3;
-    opts.ars = Some(mzv::engines::ars::ArsBudget { restarts: 2, nodes_per_restart: 400, max_changed: 24 });
-    let t0 = std::time::Instant::now();
-    type K = midnight_curves::k256::Fq;
-    let m = modulus::<K>();
-    let p = FProg::<K>::new("mul", vec![Ins::In(0), Ins::In(1), Ins::Mul(0, 1), Ins::Out(2)]);
-    let inputs = vec![FIn::fe(vec![b(3), b(5)]), FIn::fe(vec![&m - b(1), &m - b(2)])];
-    let st = check_op(&p, &inputs, &opts, ctx.seed, &mut rep);
-    eprintln!("mul: {st:?} {:?}", t0.elapsed());
-    let p = BProg::new("add64", vec![BIns::In(0, 64), BIns::In(1, 64), BIns::Add(0, 1), BIns::Out(2)]);
-    let inputs = vec![BIn::big(vec![b(3), b(5)]), BIn::big(vec![b(u64::MAX), b(u64::MAX)])];
-    let st = check_op(&p, &inputs, &opts, ctx.seed, &mut rep);
-    eprintln!("add64: {st:?} {:?}", t0.elapsed());
-    let _ = (BTreeMap::<u8, u8>::new(), BigUint::zero(), BigUint::one());
+    opts.max_positions = if thorough { 6 } else { 3 };
+    opts.ars = Some(if thorough {
+        ArsBudget {
+            restarts: 6,
+            nodes_per_restart: 1500,
+            max_changed: 32,
+        }
+    } else {
+        ArsBudget {
+            restarts: 2,
+            nodes_per_restart: 400,
+            max_changed: 24,
+        }
+    });
+    let mut opts_nonunique = opts.clone();
+    opts_nonunique.ars = None;
+    opts_nonunique.max_positions = 0;
+    let bud = Budgets {
+        thorough,
+        n_boundary: if thorough { 12 } else { 2 },
+        n_random: if thorough { 8 } else { 1 },
+        seed_cells: if thorough { 120 } else { 12 },
+        repair_nodes: if thorough { 6000 } else { 1500 },
+        opts,
+        opts_nonunique,
+    };
+
+    let mut jobs: Vec<Job> = vec![];
+    jobs.extend(field_jobs::<midnight_curves::k256::Fq>(0, &ctx, thorough, &only));
+    jobs.extend(field_jobs::<midnight_curves::k256::Fp>(1, &ctx, thorough, &only));
+    jobs.extend(field_jobs::<midnight_curves::Fp>(2, &ctx, thorough, &only));
+    jobs.extend(big_jobs(thorough, &only));
+    rep.set("planned_entries", json!(jobs.len()));
+
+    let parts: Vec<(Report, (String, OpStats, AttackStats))> = jobs
+        .par_iter()
+        .map(|job| {
+            let mut part = rep.fork();
+            let r = job(&ctx, &bud, &mut part);
+            (part, r)
+        })
+        .collect();
+    let mut stats = BTreeMap::new();
+    let mut attacks = BTreeMap::new();
+    for (part, (name, st, ast)) in parts {
+        rep.merge(part);
+        if ast.attacks + ast.seed_moves > 0 {
+            attacks.insert(
+                name.clone(),
+                json!({"attacks": ast.attacks, "seed_moves": ast.seed_moves, "nodes": ast.nodes, "same": ast.candidates_same,
+                       "same_values_other_representation": ast.candidates_same_residue, "wrong": ast.candidates_wrong, "skipped": ast.skipped}),
+            );
+        }
+        stats.insert(name, st);
+    }
+    // Curve25519 field chips (not exposed by ZkStdLib): circuits built from scratch
+    let sstats = scratch::run_curve25519(&ctx, &bud, &only, &mut rep);
+    rep.set("per_operation", stats_json(&stats));
+    rep.set("semantic_attacks", json!(attacks));
+    rep.set("curve25519_from_scratch", sstats);
+    rep.set(
+        "unreachable",
+        json!([
+            "FieldChip::normalize / make_canonical as a stand-alone call (pub(crate)); reached through exposure, equality and conversions",
+            "Curve25519 chips under the real prover/verifier (no ZkStdLib architecture flag): reference evaluator and MockProver only",
+            "BigUint widths 0 (assign_biguint(_, 0) is outside the property's 1..2048 range)"
+        ]),
+    );
+    rep.assume("reference = num-bigint arithmetic modulo the standard moduli (CircuitField::modulus of the emulated field, cross-checked against the standards in scratch::moduli_selftest)");
+    rep.assume("a forged output vector whose emulated elements are other *well-formed* representations of the reference residues is counted, not failed");
+    rep.min_nontrivial = if only.is_some() { 2 } else { (stats.len() as u64).max(2) };
     rep.finish();
 }
